@@ -241,10 +241,22 @@ def run_workers(subcmd, cases_path, n_cases, out_path, shards=None, timeout=10, 
         ths.append(th)
     for th in ths:
         th.join()
-    with open(out_path, "w") as out:
+    # concatenate in order; records written by the supervisor (hang / abort) get the original case attached
+    with open(out_path, "w") as out, open(cases_path) as cf:
         for part in parts:
             with open(part) as f:
-                shutil.copyfileobj(f, out)
+                for line in f:
+                    case_line = cf.readline()
+                    if line.startswith('{"case": ') and '"outcome": "' in line[:60]:
+                        rec = json.loads(line)
+                        try:
+                            rec["input_case"] = json.loads(case_line)
+                            if "src" in rec["input_case"]:
+                                rec["src"] = rec["input_case"]["src"]
+                        except Exception:
+                            pass
+                        line = json.dumps(rec) + "\n"
+                    out.write(line)
             os.remove(part)
     return stats
 
@@ -276,7 +288,7 @@ def count_lines(path):
 
 # --------------------------------------------------------------------------- mode V: TLC over observations
 
-def validate(pid, module, obs_path, cfg=None, chunk=20000, parallel=None, env=None, timeout=3600, xmx="3g", workers=2):
+def validate(pid, module, obs_path, cfg=None, chunk=20000, parallel=None, env=None, timeout=3600, xmx="3g", workers=2, check_count=True, deque=False):
     """Mode V: TLC evaluates the property-layer formula of `module` on every line of obs_path.
     The file is cut into chunks, one TLC process per chunk (the chunks are independent: every case is
     an initial state).  Returns (fails, states, chunks).  Each fail is the JSON printed by the spec:
@@ -315,11 +327,13 @@ def validate(pid, module, obs_path, cfg=None, chunk=20000, parallel=None, env=No
                 e = dict(env or {})
                 e["OBS"] = cp
                 r = run_tlc(pid, module, cfg=cfg, env=e, workers=workers, timeout=timeout, xmx=xmx, coverage=False,
-                            tag="%s_v%d" % (module, idx))
+                            tag="%s_v%d" % (module, idx), deque=deque)
                 with lockv:
                     if r.invariant_violated or r.rc != 0:
                         errors.append("TLC reported a violation/err in validator %s chunk %d:\n%s" % (module, idx, r.out[-2000:]))
-                    if r.distinct != cnt:
+                    if "Model checking completed" not in r.out:
+                        errors.append("validator %s chunk %d did not complete:\n%s" % (module, idx, r.out[-1500:]))
+                    if check_count and r.distinct != cnt:
                         errors.append("validator %s chunk %d evaluated %d of %d cases\n%s" % (module, idx, r.distinct, cnt, r.out[-1500:]))
                     states[0] += r.distinct
                     LAST_STATS.extend(n for n in r.notes if isinstance(n, dict))
